@@ -446,8 +446,12 @@ def check_grow(case, acc):
                         f"current text", s, [(c, st[0], st[1], sorted(st[2])) for c, st in want])
             plain = "".join(c for c, _ in want)
             if impl.CHText.strip_colors(s) != t.plain_text() or t.plain_text() != plain or len(t) != len(plain):
+                stripped = impl.CHText.strip_colors(s)
+                if sgr.ESC in stripped and t.plain_text() == plain:       # the stripper, not the text, is at fault
+                    return (f"strip-misses-sequence:{_leftover_form(stripped)}",
+                            "strip_colors(str(text)) != text.plain_text()", stripped, plain)
                 return ("grow:strip-differs-from-plain_text", "strip_colors(str(x)) != x.plain_text() after "
-                        "in-place extension", [impl.CHText.strip_colors(s), t.plain_text(), len(t)], plain)
+                        "in-place extension", [stripped, t.plain_text(), len(t)], plain)
             f = format(t, "_^24")
             if sgr.visible(f) != format(plain, "_^24") or impl.CHText.strip_colors(f) != format(plain, "_^24"):
                 return ("grow:format-differs", "format() after in-place extension", f, format(plain, "_^24"))
